@@ -10,7 +10,7 @@ MANIFEST_ENTRY = dict(
     note=WALLET_NOTE)
 
 PARAMS = dict(quick_cfgs=["MC_C03_quick.cfg", "MC_C07_quick.cfg", "MC_C03_acct.cfg", "MC_C03_exact.cfg"], thorough_cfgs=["MC_C03.cfg", "MC_C03_late.cfg", "MC_C03_acct.cfg", "MC_C03_exact.cfg"],
-              quick_n=150, thorough_n=700, focus=['rep', 'finalize:S2L', 'refused', 'lock:'], setup=STD_SETUP, assumptions=WALLET_ASSUME, extra_behaviours=[])
+              quick_n=220, thorough_n=700, focus=['rep', 'finalize:S2L', 'refused', 'lock:'], setup=STD_SETUP, assumptions=WALLET_ASSUME, extra_behaviours=[])
 
 
 def run(tier, replay_path, t0):
